@@ -389,9 +389,96 @@ def build_units(tier: str) -> list[Unit]:
     return units
 
 
+def native_ecu_request() -> tuple[bool, str]:
+    """A scripted exchange history through the real ECU._request with a handler that records, at
+    the moment of each insert_scan_result call, what it is given: one row per request, in order,
+    with the client state *before* the request, the reply bytes (or None) and the exception."""
+    import asyncio
+    import json as _json
+    import logging
+    logging.disable(logging.CRITICAL)
+    import gallia.command  # noqa: F401
+    from gallia.services.uds import ecu as E
+    from gallia.services.uds.core import service as S
+    from gallia.transports.base import BaseTransport
+    script = [("1003", "5003003201f4"), ("2701", "6701aabb"), ("2702aabb", "6702"),
+              ("22f190", None), ("22f190", "62f18a00"), ("1101", "5101"), ("3e00", "7e00")]
+    rows: list[dict] = []
+
+    class T(BaseTransport, scheme="c11-script"):
+        def __init__(self) -> None:
+            self.mutex = asyncio.Lock()
+            self.is_closed = False
+            self.pending: list[bytes | None] = []
+
+        @classmethod
+        async def connect(cls, target: Any, timeout: float | None = None) -> Any:
+            return cls()
+
+        async def close(self) -> None:
+            pass
+
+        async def write(self, data: bytes, timeout: float | None = None, tags: Any = None) -> int:
+            self.pending.append(dict(script_map).get(data.hex()))
+            return len(data)
+
+        async def read(self, timeout: float | None = None, tags: Any = None) -> bytes:
+            r = self.pending.pop(0) if self.pending else None
+            if r is None:
+                raise TimeoutError
+            return bytes.fromhex(r)
+    script_map = [(q, r) for q, r in script]
+
+    class DB:
+        async def insert_scan_result(self, state: Any, request: Any, response: Any,
+                                     exception: Any, send_time: Any, receive_time: Any,
+                                     mode: Any) -> None:
+            rows.append({"state": _json.loads(_json.dumps(state)), "request": request.pdu.hex(),
+                         "response": None if response is None else response.pdu.hex(),
+                         "exception": None if exception is None else type(exception).__name__})
+
+        async def get_session_transition(self, level: int) -> None:
+            return None
+
+    async def go() -> list[dict]:
+        t = T()
+        # the second 22f190 gets a mismatching reply: serve replies in script order
+        replies = [r for _, r in script]
+
+        async def write(data: bytes, timeout: float | None = None, tags: Any = None) -> int:
+            t.pending.append(replies.pop(0) if replies else None)
+            return len(data)
+        t.write = write  # type: ignore[method-assign]
+        e = E.ECU(t, timeout=0.05, max_retry=0)
+        e.db_handler = DB()  # type: ignore[assignment]
+        want_states = []
+        for q, _ in script:
+            want_states.append(_json.loads(_json.dumps(e.state.__dict__)))
+            try:
+                await e._request(S.UDSRequest.parse_dynamic(bytes.fromhex(q)))
+            except Exception:  # noqa: BLE001
+                pass
+        return want_states
+    want_states = asyncio.run(go())
+    problems = []
+    if len(rows) != len(script):
+        problems.append(f"{len(rows)} rows for {len(script)} requests")
+    for i, ((q, r), row) in enumerate(zip(script, rows)):
+        if row["request"] != q:
+            problems.append(f"row {i}: request {row['request']} instead of {q}")
+        if row["response"] != r:
+            problems.append(f"row {i} ({q}): reply {row['response']} recorded, {r} received")
+        if row["state"] != want_states[i]:
+            problems.append(f"row {i} ({q}): state {row['state']} recorded, the client state "
+                            f"before the request was {want_states[i]}")
+    return bool(problems), "; ".join(problems[:3]) or f"{len(rows)} rows match the history"
+
+
 def native_replay(unit: str, obligation: str, model: dict) -> tuple[bool, str]:
     """Insert a long request / the offending response class into a real sqlite database and read
     the row back."""
+    if unit.startswith("ECU._request/"):
+        return native_ecu_request()
     import asyncio
     import logging
     import os
